@@ -3,4 +3,5 @@
 set -e
 cd "$(dirname "$0")/lean"
 exes=$(sed -n 's/^name = "\(driver_c[0-9]*\)"/\1/p' lakefile.toml)
-lake build Koreo Driver $exes
+props=$(ls Koreo/Props/C*.lean | sed 's#/#.#g; s#\.lean$##')
+lake build $props $exes
